@@ -487,6 +487,12 @@ func vFieldLogEnd()                                 {}
 // vRacePair runs command a on c1 and command b on c2 concurrently.
 func vRacePair(disp *cmdDispatcher, c1, c2 *clientState, a, b int, am, bm bool) {
 	n := len(vSessionCommands)
+	if a == n+1 || b == n+1 {
+		// the saver writes snapshot files: into a scratch directory
+		dir, _ := os.MkdirTemp("", "verif-saver")
+		defer os.RemoveAll(dir)
+		disp.dss.basePath = filepath.Join(dir, "data")
+	}
 	run := func(c *clientState, i int, inMulti bool, done chan struct{}) {
 		defer func() { recover(); done <- struct{}{} }()
 		for k := 0; k < 300; k++ {
